@@ -14,8 +14,8 @@ use std::sync::atomic::Ordering;
 use std::sync::{mpsc, Arc};
 use std::time::Duration;
 
-const EV_TIMEOUT: Duration = Duration::from_secs(6);
-const ACK_TIMEOUT: Duration = Duration::from_secs(3);
+const EV_TIMEOUT: Duration = Duration::from_millis(2500);
+const ACK_TIMEOUT: Duration = Duration::from_millis(2000);
 
 pub struct Val {
     hub: Arc<Hub>,
@@ -269,7 +269,14 @@ impl<'a> Run<'a> {
             let e = match self.next_event() {
                 Some(e) => e,
                 None => {
-                    self.fail(2, 91, "blocking pool made no progress although a job can run");
+                    let only_drop = self.jobs.iter().all(|j| !(j.started && j.phase == 0) || j.kind == 2);
+                    if only_drop && self.holder.is_none() {
+                        // nothing competes with the drop job, and still the value is not destroyed
+                        self.fail(10, 0, "the drop job can run but the destructor of the wrapped value does not start");
+                    } else {
+                        self.fail(2, 91, "blocking pool made no progress although a job can run");
+                    }
+                    self.record(vec![9, 0]);
                     return;
                 }
             };
